@@ -153,7 +153,11 @@ RULE =('real TransmissionModel, 2-25 layers, 1-5 wavenumbers, 2-4 trace gases (c
         'MakeFreeMixin (makefree+file: molecules of the file replaced by free gases - absorbing and not -, new molecules added, '
         'renormalised); for every gas the look-up get_gas_mix_profile is compared with the Lean rule MixLookup.gasMix on the '
         'published tables, the freed tables with MixLookup.freedActive / freedInactive, and every component is judged against '
-        'cross-section x the row of the PUBLISHED table. distinct '
+        'cross-section x the row of the PUBLISHED table; plus a correlated-k stream (opacity_method = ktables, k-table files in '
+        'a scratch directory, 1-8 g-points, 1-2 molecules): 2-4 sources {Absorption, CIA, Rayleigh, FlatMie} with the molecular '
+        'absorption first / in the middle / last in insertion order, model()[2] against KTau.ktauRow applied to the optical '
+        'depth the earlier sources left in the layer (op c03.ktau) plus the later sources, against the product of the '
+        'model_contrib() transmittances, and against a second insertion order. distinct '
         'non-trivial = distinct (contribution multiset, layers, regime) with a transmittance strictly between 0 and 1')
 ASSUMPTIONS = ['per-species cross-sections opacity(T_l, P_l, wn), cia(T_l, wn) and the Rayleigh / H- laws are taken from '
                'the real cache objects (C04 models the interpolation); their abundance weighting and summation is modelled',
@@ -165,6 +169,10 @@ ASSUMPTIONS = ['per-species cross-sections opacity(T_l, P_l, wn), cia(T_l, wn) a
                'np.interp onto the native grid for species tabulated on another grid (inside Opacity.opacity)',
                'licensed deviation of C01 (tau>10 early exit): a row may differ from the product only if every '
                'wavenumber of the returned row is below exp(-10) and not below the product',
+               'correlated-k mode: sigma_xsec[layer, wn, g] and the weights are taken from the real prepared AbsorptionContribution '
+               '(their construction is C20/C04); what is modelled is how the kernel composes with the other sources '
+               '(ktable_adds_to_earlier, ktable_order, ktable_product); the product over COMPONENTS is not judged in this mode '
+               '(k-coefficients of several molecules are combined per g-point, not multiplied as transmittances)',
                'K4: FlatMie and LeeMie share the name "Mie"; that configuration is reported under the key '
                'contrib-name-collision:Mie and its product identity is not judged']
 
@@ -1001,6 +1009,162 @@ def zero_gas_checks(ctx, spec, m, wn, trans, depth):
     FM.spec_install(spec)
 
 
+# --------------------------------------------------------------------------------------------- correlated-k opacity mode
+# `[Global] opacity_method = ktables`: the molecular absorption enters as k-coefficients on g-points and AbsorptionContribution
+# integrates it with a kernel of its own (contribute_ktau: tau[layer, wn] += -log sum_g w_g exp(-tau_g)).  The other sources
+# are unchanged.  Real TransmissionModels on k-table files written to a scratch directory (fixtures of harness/em_common.py),
+# 2-4 sources in shuffled insertion order - the molecular absorption first / in the middle / last among them.
+from harness import em_common as E   # noqa: E402
+
+K_POSITIONS = ['absorption-last', 'absorption-first', 'absorption-in-the-middle', 'absorption-last']
+K_NAMES = {'absorption': 'Absorption', 'cia': 'CIA', 'rayleigh': 'Rayleigh', 'flatmie': 'Mie'}
+
+
+def gen_kcase(rng, k):
+    regime = ['mid', 'thin', 'mid', 'thick'][k % 4]
+    nl = int(rng.integers(2, 21))
+    nwn = int(rng.integers(1, 6))
+    wn = np.sort(rng.choice(np.arange(3000.0, 25000.0, 13.0), size=nwn, replace=False))
+    ng = int(rng.integers(1, 9))
+    w = rng.random(ng) + 0.02
+    w = w / w.sum()
+    T = float(rng.uniform(300, 2500)) if rng.random() < 0.4 else [float(x) for x in rng.uniform(300, 2500, size=nl)]
+    names = [str(x) for x in rng.choice(['H2O', 'CH4', 'CO2', 'CO'], size=int(rng.integers(1, 3)), replace=False)]
+    gases, tables = {}, {}
+    lo, hi = {'thin': (-30.0, -27.0), 'mid': (-26.5, -22.5), 'thick': (-20.0, -14.0)}[regime]
+    for nm in names:
+        nT, nP = int(rng.integers(2, 4)), int(rng.integers(2, 4))
+        tg = np.sort(rng.choice(np.arange(100.0, 3500.0, 50.0), size=nT, replace=False))
+        pg = 10 ** np.sort(rng.choice(np.linspace(-8, 2, 41), size=nP, replace=False))
+        base = 10 ** (rng.uniform(lo, hi, size=nwn)[None, None, :] + rng.uniform(-0.3, 0.3, size=(nP, nT, nwn)))
+        spread = np.sort(rng.uniform(0.0, 3.0, size=(nP, nT, nwn, ng)), axis=-1)
+        gases[nm] = float(10 ** rng.uniform(-5, -2))
+        tables[nm] = dict(tg=tg, pg=pg, kcoeff=base[..., None] * 10 ** spread)
+    pair = 'H2-He' if rng.random() < 0.5 else 'H2-H2'
+    ctg = np.sort(rng.choice(np.arange(100.0, 3500.0, 100.0), size=3, replace=False))
+    cia = dict(pair=pair, tg=ctg, tab=10 ** (rng.uniform(-55, -49) + rng.uniform(-1, 1, size=(3, nwn))))
+    others = [c for c in ('cia', 'rayleigh', 'flatmie') if rng.random() < 0.6] or ['cia']
+    others = [others[i] for i in rng.permutation(len(others))]
+    pos = K_POSITIONS[k % len(K_POSITIONS)]
+    if pos == 'absorption-in-the-middle' and len(others) < 2:
+        others = (others + [c for c in ('rayleigh', 'cia') if c not in others])[:2]
+    at = len(others) if pos == 'absorption-last' else 0 if pos == 'absorption-first' else int(rng.integers(1, len(others)))
+    contribs = others[:at] + ['absorption'] + others[at:]
+    alt = [contribs[i] for i in rng.permutation(len(contribs))]
+    if alt == contribs:
+        alt = contribs[::-1]
+    spec = dict(mp=float(rng.uniform(0.3, 5)), rp=float(rng.uniform(0.5, 1.6)), ts=float(rng.uniform(3000, 9000)),
+                rs=float(rng.uniform(0.3, 2.0)), nlayers=nl, pmin=float(10 ** rng.uniform(-3, 1)),
+                pmax=float(10 ** rng.uniform(4, 6.5)), T=T, gases=gases, cia=[pair], contribs=contribs,
+                flatmie=dict(mix=float(10 ** rng.uniform(-30, -24))))
+    return dict(mode='ktables', regime=regime, position=pos, spec=spec, alt_contribs=alt, wn=wn, tables=tables, weights=w,
+                cia=cia)
+
+
+def eval_kcase(ctx, c):
+    import shutil
+    import tempfile
+    scratch = tempfile.mkdtemp(prefix='verif_c03k_')
+    try:
+        _eval_kcase(ctx, c, scratch)
+    finally:
+        shutil.rmtree(scratch, ignore_errors=True)
+
+
+def _eval_kcase(ctx, c, scratch):
+    spec = c['spec']
+    w = np.asarray(c['weights'], float)
+    small_ = dict(mode='ktables', regime=c.get('regime'), nlayers=spec['nlayers'], contributions=list(spec['contribs']),
+                  gases=sorted(spec['gases']), gpoints=len(w))
+    try:
+        with E.CacheState():
+            E.install_tables(c['wn'], c['tables'], c.get('cia'), 'ktables', scratch, w)
+            m = E.build_model('transmission', spec)
+            ok = E.observe_model(m, 'transmission')
+            objs = list(m.contribution_list)
+            inputs = E.contribution_inputs_all(m)
+            _, cdict = m.model_contrib()
+            wn2, depth2, trans2, _ = m.model()
+            m2 = E.build_model('transmission', dict(spec, contribs=list(c['alt_contribs'])))
+            trans_alt = np.asarray(m2.model()[2], float)
+            order_alt = [x.name for x in m2.contribution_list]
+    except Exception as e:
+        ctx.violation('ktables:raises:' + type(e).__name__, 'transmission model in correlated-k mode raised %r on a valid '
+                      'atmosphere' % (e,), c)
+        return
+    names = [x.name for x in objs]
+    if names != [K_NAMES[x] for x in spec['contribs']] or order_alt != [K_NAMES[x] for x in c['alt_contribs']]:
+        ctx.mismatch('build() keeps the insertion order of sources of equal `order`', c, dict(got=names, alt=order_alt))
+        return
+    trans = np.asarray(ok['tau'], float)
+    paths, dens = ok['path'], ok['dens']
+    n, nwn = len(dens), trans.shape[1]
+    ia = [i for i, x in enumerate(objs) if type(x).__name__ == 'AbsorptionContribution'][0]
+    sig3 = np.asarray(ok['sigma_abs'], float)
+    if sig3.ndim != 3 or ok['weights'] is None:
+        ctx.mismatch('correlated-k mode: AbsorptionContribution holds k-coefficients per g-point and the weights', c,
+                     dict(ndim=int(sig3.ndim)))
+        return
+    # ---- Lean: the k-table kernel on a buffer holding what the EARLIER sources put into the layer (KTau.ktauRow), the later
+    # sources added after it (sigma x density x chord: contribute_tau / contribute_cia)
+    with np.errstate(over='ignore', invalid='ignore'):
+        acc = T.tau_full(paths, dens, [inputs[i] for i in range(ia)]) if ia > 0 else np.zeros((n, nwn))
+        later = T.tau_full(paths, dens, [inputs[i] for i in range(ia + 1, len(objs))]) if ia + 1 < len(objs) else \
+            np.zeros((n, nwn))
+
+    def lean_ktau(a):
+        d = ctx.model().call('c03.ktau', C.N(nwn), C.LLL(sig3.tolist()), C.LL([list(map(float, r)) for r in paths]),
+                             C.L(dens), C.L(ok['weights']), C.LL(np.asarray(a, float).tolist()))
+        return np.array(d.list(lambda: d.list()), float).reshape(n, nwn)
+    with np.errstate(over='ignore'):
+        mtrans = np.exp(-(lean_ktau(acc) + later))
+        mabs = np.exp(-lean_ktau(np.zeros((n, nwn))))
+    ctx.disagreements_checked += 1
+    if licensed_rows(trans, mtrans) is not None:
+        ctx.mismatch('k-tables: model()[2] vs exp(-(KTau.ktauRow on the earlier sources\' optical depth + later sources))', c,
+                     dict(impl=trans[:3], model=mtrans[:3], position=ia))
+    ctx.disagreements_checked += 1
+    if 'Absorption' not in cdict or not T.trans_close(np.asarray(cdict['Absorption'][1], float), mabs, rel=1e-7):
+        ctx.mismatch('k-tables: model_contrib()[Absorption] vs exp(-KTau.ktauRow on an empty buffer)', c,
+                     dict(impl=np.asarray(cdict.get('Absorption', (None, [None]))[1])[:3], model=mabs[:3]))
+    # ---- the property's own predicates on the real code
+    if not (np.array_equal(trans, np.asarray(trans2, float))):
+        ctx.violation('ktables:model-not-repeatable', 'model() differs after model_contrib() in correlated-k mode', c)
+    if any(nm not in cdict for nm in names):
+        ctx.violation('ktables:contribution-entry-missing', 'model_contrib() has no entry for a source', c,
+                      dict(names=names, keys=sorted(cdict)))
+        return
+    prod = np.ones_like(trans)
+    for nm in names:
+        prod = prod * np.asarray(cdict[nm][1], float)
+    bad = licensed_rows(trans, prod)
+    if bad is not None:
+        ctx.violation('ktables:product-identity', 'correlated-k mode: model transmittance != product of the per-source '
+                      'transmittances (beyond the tau>10 licence)', c,
+                      dict(layer=bad, model=trans[bad], product=prod[bad], sources=names))
+    bad = sym_rows(trans, trans_alt) if trans_alt.shape == trans.shape else 0
+    if bad is not None:
+        ctx.violation('ktables:order-dependence', 'correlated-k mode: transmittance depends on the order sources were added',
+                      c, dict(layer=bad, a=trans[bad], b=trans_alt[bad] if trans_alt.shape == trans.shape else None,
+                              order=names, other_order=order_alt))
+    with np.errstate(over='ignore', divide='ignore'):
+        ta = -np.log(np.maximum(mabs, 1e-320))
+    vis = bool(np.any((acc > 0.01) & (acc < 8) & (ta > 0.01) & (ta < 8)))
+    mixed = bool(np.any((trans > 1e-6) & (trans < 1 - 1e-9)))
+    ctx.case(key=('ktables', tuple(spec['contribs']), n, c.get('regime')) if mixed else None,
+             sample=dict(small_, trans=trans[:2, 0], model=mtrans[:2, 0]), bucket='ktables:regime:' + str(c.get('regime')))
+    ctx.bucket('ktables:' + ('absorption-first' if ia == 0 else 'absorption-last' if ia == len(objs) - 1 else
+                             'absorption-in-the-middle'))
+    ctx.bucket('ktables:earlier-source-and-absorption-both-visible-in-a-layer:' + str(vis))
+    ctx.bucket('ktables:nsources:%d' % len(objs))
+    ctx.bucket('ktables:g-points:' + ('1' if len(w) == 1 else '2-8'))
+
+
+def run_ktables(ctx):
+    for k in range(ctx.n(16, 160)):
+        eval_kcase(ctx, gen_kcase(ctx.rng, k))
+
+
 def malformed(ctx):
     rng = ctx.rng
     for k in range(ctx.n(4, 30)):
@@ -1023,6 +1187,7 @@ def run(ctx):
     n = ctx.n(200, 4000)
     for k in range(n):
         eval_case(ctx, gen_case(ctx.rng, k))
+    run_ktables(ctx)
     malformed(ctx)
     FM.reset_caches()
 
@@ -1030,5 +1195,9 @@ def run(ctx):
 def replay(ctx, case):
     FM.quiet()
     case = case.get('case', case)        # a replays/*.json payload or a bare case
+    if case.get('mode') == 'ktables':
+        eval_kcase(ctx, case)
+        FM.reset_caches()
+        return
     eval_case(ctx, case)
     FM.reset_caches()
